@@ -180,6 +180,8 @@ class DriverRules:
                 rec.ob('R02.a', 'R02.a@%s::header-contiguous' % fkey(f), ok, where,
                        'T=%d: header writes cover exactly [0,%d) without gap or overlap: %s' % (T, hdr, 'yes' if ok else 'NO (%d bytes, overlaps %s)' % (len(bm), overl[:4])))
                 if not ok:
+                    # the layout rules need a gap-free header; the ordering rules of the tag (R13.*, R08.b) do not
+                    self.tag_rules(s, ev, T, f, where, lens)
                     continue
                 okm = magic is not None and all(bm[i] == ('byte', (magic >> (8 * i)) & 0xff) for i in range(8))
                 rec.ob('R02.a', 'R02.a@%s::magic-at-0' % fkey(f), okm, where, 'T=%d: bytes [0,8) are the magic constant %s' % (T, hex(magic) if magic else '?'))
@@ -205,6 +207,7 @@ class DriverRules:
                 # R18: streams
                 self.stream_rules(s, ev, T, ivobj, f, where, enc=True)
         rec.count('R02.a encrypt success paths', nsucc, len(self.Ts))
+        rec.count('R13.a encrypt paths with a body', getattr(self, 'n_tag', 0), len(self.Ts))
 
     def iv_chain(self, s, ev, T, ivobj, f, where):
         rec = self.rec
@@ -238,6 +241,7 @@ class DriverRules:
         after = ev[ip + 1:]
         wout = [e for e in after if e[0] == 'W' and e[1] == 'out']
         ok1 = len(wout) == 1
+        self.n_tag = getattr(self, 'n_tag', 0) + 1
         rec.ob('R13.a', 'R13.a@%s::single-write-after-body' % fkey(f), ok1, where,
                'T=%d: %d write(s) to the output after the body (must be exactly the tag)' % (T, len(wout)))
         if not ok1:
@@ -490,9 +494,11 @@ class DriverRules:
                 for s, v in out:
                     n += 1
                     inst = s.mem.get(('G:%s::instance' % A.Gq, ()))
-                    ok = inst == NULL
+                    # released, or kept on purpose: then R14.t decides whether the next operation re-establishes its loop state
+                    ok = inst == NULL or (inst is not None and inst[0] == 'p')
                     rec.ob('R15.a', 'R15.a@%s::singleton-released' % fkey(f), ok, '%s:%s' % (f['file'], f['line']),
-                           'T=%d: %s returns %s with the buffer-group singleton %s' % (T, f['name'], show(v), 'released' if ok else 'STILL ALLOCATED (next run reuses a finished group)'),
+                           'T=%d: %s returns %s with the buffer-group singleton %s' % (T, f['name'], show(v), 'released' if inst == NULL else
+                                                                                      'kept (what the next operation finds in it is R14.t)' if ok else 'in an unknown state'),
                            path=[str(x) for x in s.trace[-6:]])
                     if A.live:
                         lv = s.mem.get((A.live, ()))
@@ -500,6 +506,42 @@ class DriverRules:
                         rec.ob('R15.b', 'R15.b@%s::live-counter-zero' % fkey(f), okl, '%s:%s' % (f['file'], f['line']),
                                'T=%d: live counter is %s when %s returns' % (T, show(lv) if lv else '?', f['name']))
         rec.count('R15.a operation exits', n, 3)
+
+
+def _sequence(self):
+    """R14.t / R15.e: a second operation in the same process starts its I/O loop from the same loop state as the first."""
+    rec, D = self.rec, self.D
+    A = D.A if hasattr(D, 'A') else None
+    n = 0
+    for T in ([4, 3] if 4 <= D.tmax else [D.tmax]):
+        firsts = {}
+        for op1 in ('encrypt', 'decrypt', 'verify'):
+            I, out = self.run(op1, T)
+            A = D.A
+            for s, v in out:
+                inst = s.mem.get(('G:%s::instance' % A.Gq, ()))
+                glob = (show(inst) if inst else None, show(s.mem.get((A.live, ()))) if A.live else None,
+                        tuple(show(s.mem.get((inst[1], inst[2] + (fld,)), TOP)) for fld in D.io_state_fields()) if inst and inst[0] == 'p' else ())
+                firsts.setdefault(glob, (op1, s, s.comps.get('pipe_entry', ())))
+        ref = None
+        for glob, (op1, s, pe1) in firsts.items():
+            if pe1 and ref is None:
+                ref = pe1[0]
+        for glob, (op1, s, pe1) in sorted(firsts.items(), key=lambda kv: str(kv[0])):
+            for op2 in ('encrypt', 'decrypt'):
+                f2 = D.ops[op2]
+                I2, out2 = D.run_second(op2, T, s)
+                for s2, v2 in out2:
+                    pe2 = s2.comps.get('pipe_entry', ())
+                    if not pe2:
+                        continue
+                    n += 1
+                    ok = ref is not None and pe2[0] == ref
+                    rec.ob('R14.t', 'R14.t@%s::io-loop-state-re-established' % fkey(f2), ok, '%s:%s' % (f2['file'], f2['line']),
+                           'T=%d: %s after an earlier %s in the same process enters the I/O loop with %s (a first operation: %s)' % (
+                               T, op2, op1, dict(pe2[0]), dict(ref) if ref else '?'))
+    rec.count('R14.t second-operation pipeline entries', n, 2)
+    rec.extra['io_loop_state_fields'] = D.io_state_fields()
 
 
 def _bounds(self):
@@ -548,3 +590,4 @@ def _bounds(self):
 
 
 DriverRules.bounds = _bounds
+DriverRules.sequence = _sequence
